@@ -105,6 +105,13 @@ def wire_plan(rnd, messages, frag_p=0.5, ctrl_p=0.4, nonminimal=True):
         if rnd.random() < frag_p:
             nfr = rnd.choice([2, 2, 3, 4, 5])
         pts = [0] + split_points(rnd, len(payload), nfr) + [len(payload)]
+        if nfr > 1:
+            # fragments without a payload are legal anywhere; make the first and the last one empty now and then
+            r = rnd.random()
+            if r < 0.12:
+                pts[1] = 0
+            elif r < 0.24:
+                pts[-2] = len(payload)
         for j in range(nfr):
             part = payload[pts[j]:pts[j + 1]]
             op = OPC[kind] if j == 0 else 0
